@@ -10,6 +10,7 @@ from __future__ import annotations
 import numpy as np
 
 from .. import exprcase as X
+from .. import harness as H
 from ..harness import close
 from ..recipes import ast as A
 from ..recipes import build as B
@@ -61,6 +62,7 @@ def run_case(case, rec):
     fam, vrel = case["family"], case["vrel"]
     cell = f"{fam}|{vrel}|m=1" if m == 1 else f"m={m}|{vrel}"
     B.SHARE[0] = bool(case.get("share"))
+    H.SCALE_INV[0] = float(case.get("inv_scale", 1.0))
     if B.SHARE[0]:
         cell = f"shared-subexpressions|{vrel}"
     rec.case({"d": decls, "n": nodes, "V": V, "s": B.SHARE[0]}, nontrivial=sum(A.n_ops(n) for n in nodes) >= 2)
@@ -154,6 +156,46 @@ def run_case(case, rec):
                         if d > worst.get(key, (0, None))[0]:
                             worst[key] = (d, (pt, float(got2[i, jx]), float(want[i, jx])))
             rec.cmp(m * n, cell)
+    # the caller's point buffer reused: one ndarray updated in place between calls to the same callables
+    if len(case["points"]) >= 2 and not nbad:
+        buf = B.point_array(V, case["points"][0]).copy()
+        live = dict(fns)
+        for pt in list(case["points"]) + [case["points"][0]]:
+            buf[:] = B.point_array(V, pt)
+            jets = [R.ref_jet(D, nd, V, pt, order=1) for nd in nodes]
+            want = np.array([j.g for j, _ in jets])
+            mag = max(max(t.mag, t.dmag) for _, t in jets)
+            for route, fn in list(live.items()):
+                try:
+                    got = np.asarray(fn(buf), dtype=float).reshape(m, n)
+                except Exception as ex:
+                    bad(route, "same-buffer-call-raises:" + type(ex).__name__, pt, ex=ex)
+                    live.pop(route)
+                    continue
+                rec.cmp(m * n, cell)
+                rec.events["same-buffer-comparisons"] += 1
+                if not all(close(g_, w_, RTOL, mag)[0] for g_, w_ in zip(got.reshape(-1), want.reshape(-1))):
+                    bad(route, "stale-or-wrong-after-in-place-update-of-the-point-buffer", pt, got=got.tolist(), want=want.tolist())
+                    live.pop(route)
+    forms = X.other_point_forms(case, margin=1e-2) if not nbad else None
+    if forms is not None:
+        pt, reps = forms
+        jets = [R.ref_jet(D, nd, V, pt, order=1) for nd in nodes]
+        if all(t.regular() for _, t in jets) and all(np.all(np.isfinite(j.g)) for j, _ in jets):
+            want = np.array([j.g for j, _ in jets])
+            mag = max(max(t.mag, t.dmag) for _, t in jets)
+            for label, xrep in reps:
+                for route, fn in fns.items():
+                    try:
+                        with np.errstate(all="ignore"):
+                            got = np.asarray(fn(xrep), dtype=float).reshape(m, n)
+                    except Exception as ex:  # NumPy's own integer-arithmetic refusals: not a result, not judged
+                        rec.events[f"point-form-refused:{label}:{type(ex).__name__}"] += 1
+                        continue
+                    rec.cmp(m * n, cell)
+                    rec.events["point-form-comparisons:" + label] += 1
+                    if not all(close(g_, w_, RTOL, mag)[0] for g_, w_ in zip(got.reshape(-1), want.reshape(-1))):
+                        bad(route, "result-depends-on-the-dtype-of-the-point:" + label, pt, got=got.tolist(), want=want.tolist())
     # parameters updated after compilation: the callables compiled above must follow the current values
     if b.params and any(x[0] in ("par", "pel") for nd in nodes for x in A.walk(nd)):
         pn_all = sorted(b.params)
@@ -203,6 +245,21 @@ def run(ctx, rec):
                     if c is not None:
                         c["share"] = True
                         run_case(c, rec)
+    # numerically special data (tiny-scale coefficient arrays, constants near 0 / 1, exponents near integers)
+    for k, (fam, node, inv) in enumerate(X.special_families()):
+        for vrel in ("exact", "superset_permuted"):
+            i += 1
+            if not ctx.mine(i):
+                continue
+            rows = [node] if k % 2 == 0 else [node, ["bin", "*", ["raw", 2.0, "float"], node]]
+            try:
+                c = make_case(rng, X.D0, rows, vrel, "special:" + fam.split(":")[0])
+            except (R.ShapeError, R.OutOfModel):
+                c = None
+            if c is not None:
+                c["inv_scale"] = inv
+                run_case(c, rec)
+    H.SCALE_INV[0] = 1.0
     # directed multi-row Jacobians: every family appears in some m=2 and m=4 list
     for k, (fam, node) in enumerate(fams):
         for m in (2, 4):
